@@ -284,12 +284,25 @@ def targeted_events(rng, n_events, want):
         m = rng.choice((3, 4, 5, 6, 8, 10, 12, 14, 17, 20))
         seq = "".join(rng.choice("ACGT") for _ in range(m))
         rate = rng.choice([r for r in RATES if r < 1])
+        nrich = rng.random() < 0.15
+        if nrich:
+            # an adapter with a block of N placed off-centre, searched with both ends free: the allowed errors of an
+            # alignment that lies inside the adapter depend on the non-N bases actually aligned
+            typ = rng.choice(("Anywhere", "Back;anywhere", "Front;anywhere", "Anywhere", "Back", "Front"))
+            m = rng.choice((14, 17, 20, 24, 30))
+            nb = rng.randint(3, m // 2)
+            st = rng.randint(1, m - nb - 1)
+            seq = "".join(rng.choice("ACGT") for _ in range(m))
+            seq = seq[:st] + "N" * nb + seq[st + nb:]
+            rate = rng.choice((Fraction(1, 10), Fraction(2, 10), Fraction(12, 100), Fraction(15, 100), Fraction(25, 100)))
         cfg = make_config(typ, seq, rate, rng.choice((1, 2, 3, 5)), indels=rng.random() < 0.8)
         if cfg is None:
             continue
         k = int(rate * m)
         for _ in range(6):
             mode = rng.random()
+            if nrich and rng.random() < 0.7:
+                mode = 0.6
             if mode < 0.3:
                 # the whole read is (nearly) an adapter end: shorter than every overlap window
                 L = rng.randint(1, m)
@@ -315,8 +328,10 @@ def targeted_events(rng, n_events, want):
             elif mode < 0.8:
                 i = rng.randint(0, m - 1)
                 read = seq[i: rng.randint(i, m)]
-                if rng.random() < 0.4:
-                    read = mutate(rng, read, 1)
+                if "N" in read:
+                    read = concretize(rng, read)
+                if rng.random() < (0.8 if nrich else 0.4):
+                    read = mutate(rng, read, rng.randint(1, 2) if nrich else 1)
             else:
                 read = planted_read(rng, cfg, 30)
             ev.append(observe(cfg, read, want))
